@@ -163,7 +163,15 @@ impl World {
         let mut files = vec![];
         for (i, f) in inputs.iter().enumerate() {
             let p = format!("{dir}/in{i}.dlt");
-            std::fs::write(&p, file_bytes(f, i == 0)).expect("write input");
+            let mut bytes = file_bytes(f, i == 0);
+            if i == 1 {
+                // the ECU2 file starts with 100 000 marker-free bytes: its first message lies far behind the start
+                // (but inside the first read window) and must still be found by the per-file scan
+                let mut b = crate::c01::garbage(100_000, 6);
+                b.append(&mut bytes);
+                bytes = b;
+            }
+            std::fs::write(&p, bytes).expect("write input");
             files.push(p);
         }
         // merged order: every file is sorted and all reception times are distinct -> global reception order
@@ -525,7 +533,7 @@ impl Prop for C14 {
         Meta {
             id: "C14",
             level: "exploration",
-            rule: "full product of adlt convert options against the binary built from the working tree: -b {-,0,3} x -e {-,5,100} x --lcs {-,{1},{2},{1,3},{3,1},{2,3,1,2}} x --eac {-,ECU1,:AP1,'ECU2:AP2:CT2,ECU1::CT1'} x -f {-, DLF file (positive APID + negative CTID), dlt-convert list, DLF file with an additional enabled marker and event filter} x --sort x style/-o {-a,-x,-s with and without -o, -o alone} x file orders (quick 2, thorough 6 of the 24 permutations) of four generated input files (ECU1 with two boots and garbage between messages, ECU2, a continuation file of ECU1, a file carrying both ECUs interleaved in time) + the first file named twice + every -o combination without filter options once more onto a target path that holds a longer, older export (quick: a 2-3 valued sub-product). Oracle computed in the harness from the generated messages: merged index order = global reception order, lifecycle ids = library detector on the merged stream renumbered as a fresh process counts, filters by their stated meaning (--eac parsed independently); printed indices = expected selection, each once, ascending when unsorted, ascii lines show the message; the -o file re-reads (library iterator, nothing skipped) to exactly the selected messages; identical for every file-argument order. Non-trivial = any selecting option set.".into(),
+            rule: "full product of adlt convert options against the binary built from the working tree: -b {-,0,3} x -e {-,5,100} x --lcs {-,{1},{2},{1,3},{3,1},{2,3,1,2}} x --eac {-,ECU1,:AP1,'ECU2:AP2:CT2,ECU1::CT1'} x -f {-, DLF file (positive APID + negative CTID), dlt-convert list, DLF file with an additional enabled marker and event filter} x --sort x style/-o {-a,-x,-s with and without -o, -o alone} x file orders (quick 2, thorough 6 of the 24 permutations) of four generated input files (ECU1 with two boots and garbage between messages, ECU2 behind 100 000 bytes of leading garbage, a continuation file of ECU1, a file carrying both ECUs interleaved in time) + the first file named twice + every -o combination without filter options once more onto a target path that holds a longer, older export (quick: a 2-3 valued sub-product). Oracle computed in the harness from the generated messages: merged index order = global reception order, lifecycle ids = library detector on the merged stream renumbered as a fresh process counts, filters by their stated meaning (--eac parsed independently); printed indices = expected selection, each once, ascending when unsorted, ascii lines show the message; the -o file re-reads (library iterator, nothing skipped) to exactly the selected messages; identical for every file-argument order. Non-trivial = any selecting option set.".into(),
             assumptions: vec!["one generated input set (20 messages, 4 files); lifecycle ids of the CLI are assumed to count from 1 in creation order in a fresh process".into()],
             budget_s: (150, 1500),
             workers: 1,
